@@ -580,11 +580,26 @@ impl Task for ExternalEquivalenceTask {
         let right = control_translate(theory_translate(self.program));
 
         // TODO: Warn when a conflict between private predicates is encountered
-        // TODO: Check if renaming creates new conflicts
+        // Choose a name extension that does not turn a renamed predicate into a predicate that already exists
+        let mut name_extension = "p".to_string();
+        while specification_private_predicates
+            .intersection(&program_private_predicates)
+            .any(|p| {
+                let renamed = fol::Predicate {
+                    symbol: format!("{}_{}", p.symbol, name_extension),
+                    arity: p.arity,
+                };
+                public_predicates.contains(&renamed)
+                    || specification_private_predicates.contains(&renamed)
+                    || program_private_predicates.contains(&renamed)
+            })
+        {
+            name_extension.push('p');
+        }
         let right = right.rename_predicates(
             &specification_private_predicates
                 .intersection(&program_private_predicates)
-                .map(|p| (p.clone(), "p".to_string()))
+                .map(|p| (p.clone(), name_extension.clone()))
                 .collect(),
         );
 
